@@ -108,6 +108,16 @@ func runCase(w *world, k kase, check string, verbose bool) [][2]string {
 				}
 			}
 		}
+		if sigmaBlame(k) {
+			for _, id := range honest {
+				pe := end.Parties[id]
+				if pe.Status != "error" || len(pe.Culprits) != 1 || pe.Culprits[0] != k.Deviator {
+					add(fmt.Sprintf("blame|%s|wrong-signature-share-not-attributed|%s", k.Scenario.Proto, pe.Status),
+						fmt.Sprintf("party %s ends with %s %v %q although %s published a wrong signature share (%s)\n%s", id, pe.Status, pe.Culprits, pe.Err, k.Deviator, k.Op, desc()))
+					break
+				}
+			}
+		}
 		for _, e := range judgeBlame(w, k, end, honest) {
 			add(fmt.Sprintf("blame|%s|%s", k.Scenario.Proto, e[0]), e[1]+"\n"+desc())
 		}
